@@ -177,7 +177,77 @@ fn one_ser(t: &mut Tape, dir: &Path, probes: &mut std::collections::BTreeMap<Str
     None
 }
 
+/// The command-line tools themselves (thin wrappers, but they map arguments): run as child processes on real files.
+/// Binaries are looked up in $L21_BINS; without it this part is skipped (and says so in the probes).
+fn one_cli(id: &str, t: &mut Tape, dir: &Path, probes: &mut std::collections::BTreeMap<String, u64>) -> Option<Viol> {
+    let bins = match std::env::var("L21_BINS") {
+        Ok(b) if Path::new(&b).is_dir() => PathBuf::from(b),
+        _ => {
+            *probes.entry("cli_skipped_no_binaries".into()).or_insert(0) += 1;
+            return None;
+        }
+    };
+    let run = |exe: &str, args: &[&str]| -> Result<(), String> {
+        let o = std::process::Command::new(bins.join(exe)).args(args).stdin(std::process::Stdio::null()).output().map_err(|e| format!("{}: {}", exe, e))?;
+        if o.status.success() {
+            Ok(())
+        } else {
+            Err(format!("{} {:?} exited with {} ({})", exe, args, o.status, String::from_utf8_lossy(&o.stderr).chars().take(200).collect::<String>()))
+        }
+    };
+    let p = |n: &str| dir.join(n).to_string_lossy().to_string();
+    match id {
+        "C05" => {
+            let (text, _) = gen_lef::gen_lef_text(t, false);
+            std::fs::write(p("cli_src.lef"), &text).unwrap();
+            let lib = match lef21::LefLibrary::open(p("cli_src.lef")) {
+                Ok(l) => l,
+                Err(_) => return None,
+            };
+            let _ = std::fs::write(p("cli_out.lef"), vec![b'#'; text.len() + 999]); // a longer file is already there
+            if let Err(e) = run("lefrw", &[&p("cli_src.lef"), &p("cli_out.lef")]) {
+                return Some(Viol { sig: "realfs:cli:lefrw/exit".into(), detail: e });
+            }
+            *probes.entry("cli_lefrw_runs".into()).or_insert(0) += 1;
+            match lef21::LefLibrary::open(p("cli_out.lef")) {
+                Ok(l2) if l2 == lib => None,
+                Ok(_) => Some(Viol { sig: "realfs:cli:lefrw/value".into(), detail: "lefrw's output reads back to a different library than its input".into() }),
+                Err(e) => Some(Viol { sig: "realfs:cli:lefrw/reread".into(), detail: format!("lefrw's output is rejected by the reader: {:?}", e) }),
+            }
+        }
+        "C18" => {
+            let (lib, _) = gen_lib(t, StrProfile::Markup);
+            let mut bytes0 = Vec::new();
+            if lib.write(&mut bytes0).is_err() {
+                return None;
+            }
+            std::fs::write(p("cli_a.gds"), &bytes0).unwrap();
+            let (tool, fmt): (&str, &str) = *t.pick(&[("gds2json", "json"), ("gds2yaml", "yaml"), ("gds2markup", "json"), ("gds2markup", "yaml")]);
+            let _ = std::fs::write(p("cli_a.mk"), vec![b' '; 200_000]);
+            let _ = std::fs::write(p("cli_b.gds"), vec![0u8; bytes0.len() + 777]);
+            let r = if tool == "gds2markup" { run(tool, &["-i", &p("cli_a.gds"), "-o", &p("cli_a.mk"), "-f", fmt]) } else { run(tool, &["-i", &p("cli_a.gds"), "-o", &p("cli_a.mk")]) };
+            if let Err(e) = r {
+                return Some(Viol { sig: format!("realfs:cli:{}/exit", tool), detail: e });
+            }
+            if let Err(e) = run("markup2gds", &["-i", &p("cli_a.mk"), "-f", fmt, "-o", &p("cli_b.gds")]) {
+                return Some(Viol { sig: format!("realfs:cli:markup2gds/exit/{}", fmt), detail: e });
+            }
+            *probes.entry(format!("cli_{}_{}_runs", tool, fmt)).or_insert(0) += 1;
+            if std::fs::read(p("cli_b.gds")).unwrap_or_default() != bytes0 {
+                return Some(Viol { sig: format!("realfs:cli:{}+markup2gds/bytes", tool), detail: format!("{} then markup2gds ({}) does not reproduce the GDSII bytes", tool, fmt) });
+            }
+            None
+        }
+        _ => None,
+    }
+}
+
 fn run_one(id: &str, master: u64, index: u64, dir: &Path, probes: &mut std::collections::BTreeMap<String, u64>) -> Option<Viol> {
+    // every 64th run of the file-level properties goes through the command-line tools
+    if index % 64 == 63 && (id == "C05" || id == "C18") {
+        let mut t = Tape::record(run_seed(master, &format!("{}-realfs-cli", id), index));
+        return one_cli(id, &mut t, dir, probes);
+    }
     let mut t = Tape::record(run_seed(master, &format!("{}-realfs", id), index));
     let r = std::panic::catch_unwind(std::panic::AssertUnwindSafe(|| match id {
         "C01" | "C02" => one_gds(id, &mut t, dir, probes),
